@@ -569,6 +569,17 @@ func (e *Engine) execOp(idx int, op *Op, st *StepRec) {
 		e.startSession(s)
 		e.queue(s, helloFor(&s.Cfg), idx)
 		return
+	case "skip":
+		// consume a request id (and a call-table slot) without sending anything:
+		// keeps ids and references aligned with a run in which this op was sent
+		s := e.Sess[op.S]
+		if s.Started && op.Mode != "cancel" { // CANCEL reuses the call's request id
+			req := s.NextReq()
+			if op.Mode == "call" || op.Mode == "meta" {
+				s.Calls = append(s.Calls, idRec{ID: req, URI: op.URI, Aux: "skipped"})
+			}
+		}
+		return
 	case "attach":
 		// open the transport (the router starts waiting for HELLO) without sending anything
 		e.startSession(e.Sess[op.S])
